@@ -434,6 +434,8 @@ pub struct Ctx {
     pub workload_done_at: Option<u64>,
     /// number of connections (both sides counted) whose handshake is confirmed
     pub confirmed: usize,
+    /// packets whose payload an attacker-mode tap rewrote: (attacker ep, space, pn, time)
+    pub attack_pkts: Vec<(EpId, Space, u64, u64)>,
 }
 
 #[derive(Clone, Debug)]
@@ -472,6 +474,12 @@ impl Ctx {
         self.n_violations += 1;
         let what = what.into();
         let signature = signature.into();
+        // a profile may run another property's monitor as part of its own oracle
+        let relabel = self.params.relabel.clone();
+        let (property, signature) = match relabel.as_deref() {
+            Some(r) if r != property => (r, format!("{property}:{signature}")),
+            _ => (property, signature),
+        };
         self.log(|| format!("!! VIOLATION {property} {signature}: {what}"));
         let witness: Vec<String> = self.ring.iter().cloned().collect();
         let replay = json!({
@@ -526,6 +534,7 @@ impl World {
                 clients_running: 0,
                 workload_done_at: None,
                 confirmed: 0,
+                attack_pkts: Vec::new(),
             },
             mons,
         }))
